@@ -422,6 +422,16 @@ func (r *Reconciler) reconcileAbort(ctx context.Context, proposal *configapi.Pro
 				return controller.Result{}, err
 			}
 			return controller.Result{}, nil
+		} else if config.Status.Committed.Index >= proposal.TransactionIndex &&
+			config.Status.Applied.Index >= proposal.TransactionIndex {
+			// Both indexes have already been moved past this proposal, but the proposal was not updated
+			// (e.g. the process stopped between the two writes): complete the abort.
+			proposal.Status.Phases.Abort.End = getCurrentTimestamp()
+			proposal.Status.Phases.Abort.State = configapi.ProposalAbortPhase_ABORTED
+			if err := r.updateProposalStatus(ctx, proposal); err != nil {
+				return controller.Result{}, err
+			}
+			return controller.Result{}, nil
 		}
 
 	}
